@@ -171,7 +171,7 @@ def run(ctx):
 
     scan_windows(ctx, ctx.budget(90, 2500))
     mgs_premises(ctx, ctx.budget(80, 2000))
-    length_safety(ctx, ctx.budget(240, 4000))
+    length_safety(ctx, ctx.budget(300, 4000))
     import e3window   # E3: get_subgraph_between_topological_nodes == SubgraphBound.window_subgraph_opt (subgraph-scanning lower bound)
     e3window.run_window_e3(ctx, ctx.budget(150, 3000))
 
@@ -401,7 +401,7 @@ def length_safety(ctx, n):
     safety machinery (trusted edges, constraints extended to safe sequences, safety as subpath constraints) must respect"""
     import flowpaths as fp
     import gen
-    classes = ["kLeastAbsErrors", "kMinPathError", "MinFlowDecomp", "kFlowDecomp"]
+    classes = ["kLeastAbsErrors", "kMinPathError", "MinFlowDecomp", "kFlowDecomp", "kPathCover", "MinPathCover"]
     for i in range(n):
         rng = ctx.rng("lensafe", i)
         name = classes[i % len(classes)]
@@ -414,7 +414,10 @@ def length_safety(ctx, n):
                 n_ = min(len(es), rng.choice([2, 3, 3])); a_ = rng.randrange(0, len(es) - n_ + 1); cons.append(es[a_:a_ + n_])
         if not cons:
             continue
+        cover = name in ("kPathCover", "MinPathCover")
         kw = dict(flow_attr="flow", weight_type=int if is_int else float, subpath_constraints=cons, solver_options={"threads": zoo.THREADS})
+        if cover:
+            kw = dict(subpath_constraints=cons, solver_options={"threads": zoo.THREADS})
         heavy = rng.random() < 0.7
         if heavy:
             # ONE long edge of a generating path carries the required fraction of the constraint's length; the rest of the
@@ -473,8 +476,10 @@ def length_safety(ctx, n):
             for e in G.edges():
                 if rng.random() < 0.3:
                     G.edges[e]["flow"] = max(0, G.edges[e]["flow"] + rng.choice([-1, 1, 2]) * (1 if is_int else 0.5))
-        if name != "MinFlowDecomp":
+        if name not in ("MinFlowDecomp", "MinPathCover"):
             kw["k"] = max(1, len(set(map(tuple, paths))) + rng.choice([-1, -1, 0, 0, 1]))
+            if cover and rng.random() < 0.6:
+                kw["k"] = rng.choice([1, 1, 2])        # below the width: must stay infeasible whatever the options
         info = {"class": name, "G": G, "kwargs": kw, "node": False}
         off = {f: False for f in flags_for(name)}
         ref = outcome(info, off)
